@@ -22,16 +22,16 @@ STATE = {'mon': None}
 
 def space(tier):
     q = tier == 'quick'
-    return {'orders': [1, 2, 3] + ([] if q else [4]), 'dims': [2, 3], 'H': ['dense-real', 'dense-complex', 'local-sum-real', 'local-sum-complex'],
+    return {'orders': [1, 2, 3] + ([] if q else [4, 5]), 'dims': [2, 3], 'H': ['dense-real', 'dense-complex', 'local-sum-real', 'local-sum-complex'],
             'ranks': 'all admissible', 'h': [0.05, 0.3], 'steps': 3, 'normalize': [0, 2],
             'truncation': ['(0,inf)', '(1e-12,50)', '(0,max current rank)'], 'krylov dimension': '2..N'}
 
 
 def cases(tier):
     q = tier == 'quick'
-    for d in ([1, 2, 3] if q else [1, 2, 3, 4]):
-        for dims in itertools.product([2, 3], repeat=d):
-            if d == 4 and np.prod(dims) > 24:
+    for d in ([1, 2, 3] if q else [1, 2, 3, 4, 5]):
+        for dims in (itertools.product([2, 3], repeat=d) if d < 5 else [(2,) * 5]):
+            if d == 4 and np.prod(dims) > 36:
                 continue
             for hk in ('dense-real', 'dense-complex', 'local-real', 'local-complex'):
                 for rk in admissible_ranks(list(dims)):
@@ -185,7 +185,7 @@ def run_case(case, seed):
                 check_list(key, sol, True, False)
     # Krylov (one step), every dimension
     if nz == 0 or True:
-        for dim in range(2, N + 1):
+        for dim in range(2, min(N, 16) + 1):      # Lanczos without re-orthogonalisation: full-space exactness only claimed for N <= 16
             key = 'krylov' + o1
             with r.op(key + ':call'):
                 y = ode.krylov(op, x0t, dim, h, threshold=1e-14, max_rank=50, normalize=nz)
